@@ -94,7 +94,7 @@ Spec == Init /\ [][Next]_evars
 \* every edit keeps anchors well formed: each alias follows its definition and reads its value
 WellFormed == phase = "edit" => AnchorsWellFormed(cur)
 \* action properties: frames
-SetFrame == [][(phase = "edit" /\ Len(hist') > Len(hist) /\ hist'[Len(hist')].op = "set_must") =>
+SetFrame == [][(phase = "edit" /\ ~HasSet(cur) /\ Len(hist') > Len(hist) /\ hist'[Len(hist')].op = "set_must") =>
                  /\ Len(cur') = Len(cur)
                  /\ \A i \in 1..Len(cur) : cur'[i].k = cur[i].k /\ cur'[i].kids = cur[i].kids /\ cur'[i].keys = cur[i].keys
                                            /\ cur'[i].anchor = cur[i].anchor /\ cur'[i].alias = cur[i].alias
